@@ -130,7 +130,8 @@ class KNeighbors(BaseGridder):
         """
         check_is_fitted(self, ["tree_"])
         distances, indices = self.tree_.query(
-            np.transpose(n_1d_arrays(coordinates, 2)), k=self.k
+            np.transpose(n_1d_arrays(np.broadcast_arrays(*coordinates[:2]), 2)),
+            k=self.k,
         )
         if indices.ndim == 1:
             indices = np.atleast_2d(indices).T
